@@ -28,6 +28,9 @@ type C12Key struct {
 	// additionally split into separate data events (validator route only)
 	DSplits []int `json:"dsplits,omitempty"`
 	Pad     int   `json:"pad,omitempty"` // extra leading-zero bytes (CBE var/big forms), separators (CTE)
+	// Mark: the key carries a marker (maps only; the marker ID is derived from the key's position). A
+	// marked key is still the same key.
+	Mark bool `json:"mark,omitempty"`
 }
 
 type C12Case struct {
@@ -75,6 +78,7 @@ var c12Ints = func() []string {
 }()
 
 var c12Texts = [][]byte{[]byte(""), []byte("a"), []byte("é"), []byte("b c"), []byte("a-long-key-of-more-than-fifteen-bytes"), []byte("中文")}
+
 func init() {
 	// strings that spell a time key exactly as the library prints it: a string and a time are different values
 	for _, tm := range c12Times {
@@ -109,6 +113,7 @@ func genC12Key(t *rapid.T, via string) C12Key {
 		k.Time = rapid.IntRange(0, len(c12Times)-1).Draw(t, "time")
 	}
 	c12PickForm(t, &k, via)
+	k.Mark = rapid.IntRange(0, 4).Draw(t, "mark") == 0
 	return k
 }
 
@@ -421,6 +426,7 @@ func init() {
 				dup.Cuts = nil
 				dup.DSplits = nil
 				c12PickForm(t, &dup, c.Via)
+				dup.Mark = rapid.IntRange(0, 3).Draw(t, "dupmark") == 0
 				pos := rapid.IntRange(1, n).Draw(t, "dpos")
 				c.Keys = append(c.Keys[:pos], append([]C12Key{dup}, c.Keys[pos:]...)...)
 			}
@@ -454,6 +460,7 @@ func init() {
 			ctx.LabelIf(c.RecordType, "record-type")
 			for i := range c.Keys {
 				ctx.Label("form:" + c.Keys[i].Class + "/" + c.Keys[i].Form)
+				ctx.LabelIf(c.Keys[i].Mark && !c.RecordType, "marked key: "+c.Keys[i].Class+"/"+c.Keys[i].Form)
 				if c.Keys[i].Form == "chunked" && c.Via == "rules" {
 					for _, d := range c.Keys[i].DSplits {
 						if d > 0 && d < len(c.Keys[i].Text) && c.Keys[i].Text[d]&0xc0 == 0x80 {
@@ -475,6 +482,9 @@ func init() {
 				var spans []span
 				for i := range c.Keys {
 					lo := len(evs)
+					if c.Keys[i].Mark && !c.RecordType {
+						evs = append(evs, ev.Event{K: ev.Marker, Bs: []byte(fmt.Sprintf("m%d", i))})
+					}
 					evs = append(evs, c.Keys[i].rulesEvents()...)
 					spans = append(spans, span{lo, len(evs) - 1})
 					if !c.RecordType {
@@ -508,6 +518,11 @@ func init() {
 					doc = append(doc, 0x99)
 				}
 				for i := range c.Keys {
+					if c.Keys[i].Mark && !c.RecordType {
+						id := fmt.Sprintf("m%d", i)
+						doc = append(doc, 0x7f, 0xf0, byte(len(id)))
+						doc = append(doc, id...)
+					}
 					doc = append(doc, c.Keys[i].cbeBytes()...)
 					if !c.RecordType {
 						doc = append(doc, 0x7d)
@@ -535,6 +550,9 @@ func init() {
 				}
 				for i := range c.Keys {
 					sb.WriteString("\n ")
+					if c.Keys[i].Mark && !c.RecordType {
+						sb.WriteString(fmt.Sprintf("&m%d:", i))
+					}
 					sb.WriteString(c.Keys[i].cteText())
 					if !c.RecordType {
 						sb.WriteString(" = null")
